@@ -688,3 +688,32 @@ Theorem lsp_lists_exactly_up : forall evs k,
 Proof.
   intros evs k. simpl. apply up_ids_spec. apply (run_wf evs init init_wf).
 Qed.
+
+(* ------------------------------------------------------------------ a change that lands while the LSP is being built *)
+
+(* The updater takes the request (flag cleared) BEFORE it builds: [ForceRegen] is the build (LSP :=
+   the Up adjacencies it sees), the hello arrives during the build and may set the flag again, then
+   the updater looks at the flag again ([Regen]). *)
+Theorem change_during_build : forall evs k hold v,
+  let s := run init (evs ++ [ForceRegen; Hello k hold v; Regen]) in
+  lsp s = up_ids (nbrs s) /\ pending s = false.
+Proof.
+  intros evs k hold v s.
+  assert (Happ : s = step (run init (evs ++ [ForceRegen; Hello k hold v])) Regen).
+  { unfold s, run. rewrite !fold_left_app. reflexivity. }
+  destruct (lsp_lists_up (evs ++ [ForceRegen; Hello k hold v])) as (Hinv & _ & Hreg).
+  set (s2 := run init (evs ++ [ForceRegen; Hello k hold v])) in *.
+  rewrite Happ. destruct (pending s2) eqn:Ep.
+  - destruct (Hreg eq_refl) as [H1 H2]. split; [| exact H2].
+    rewrite H1. simpl. rewrite Ep. reflexivity.
+  - simpl. rewrite Ep. destruct Hinv as [Hinv | Hinv]; [discriminate |]. split; assumption.
+Qed.
+
+(* an updater that also clears the flag AFTER building (seeded change C31-2r3) loses that request *)
+Definition drained (s : srv) : srv := mkSrv (now s) (nbrs s) false (lsp s).
+
+Theorem drain_after_build_loses_change :
+  let s0 := run init [Hello 0 9 NotLists; Regen] in
+  let s := step (drained (run s0 [ForceRegen; Hello 0 9 Lists])) Regen in
+  up_ids (nbrs s) = [0] /\ lsp s = [] /\ pending s = false.
+Proof. vm_compute. repeat split; reflexivity. Qed.
